@@ -276,17 +276,27 @@ theorem gov_refund_fails_iff (pid : Nat) (d : List (Nat × Nat)) (b : Nat) :
 halts the end-blocker when the next proposal ends (fixes/C07-gov-escrow-spend.md: proposal 1 with a 10000 deposit sends 1000,
 proposal 2 holds a 1000 deposit) -/
 theorem gov_escrow_spend_halts_unguarded :
-    (run ⟨true, false⟩ [.deposit 1 10000, .deposit 2 1000, .pass 1 [.spend 1000], .settle 2] init).halted = true := by decide
+    (run { addDepositRefusesGov := true, passChecksEscrow := false } [.deposit 1 10000, .deposit 2 1000, .pass 1 [.spend 1000], .settle 2] init).halted = true := by decide
 
 /-- … and without the refusal in `AddDeposit` a passed `MsgDeposit{depositor: gov}` does (fixes/C07-gov-self-deposit.md) -/
 theorem gov_escrow_self_deposit_halts_unguarded :
-    (run ⟨false, false⟩ [.deposit 1 10000, .deposit 2 1000, .pass 1 [.govDeposit 2 500], .settle 2] init).halted = true := by decide
+    (run { addDepositRefusesGov := false, passChecksEscrow := false } [.deposit 1 10000, .deposit 2 1000, .pass 1 [.govDeposit 2 500], .settle 2] init).halted = true := by decide
+
+/-- obligation over the regenerated order of the tallied-proposal callback: the deposits are refunded / burned (unless an
+expedited proposal is converted) BEFORE the outcome switch runs the messages -/
+theorem settle_order_code_facts : govEscrowCode.settleBeforeMsgs = true := by decide
+
+/-- the ORDER matters without the check: were the deposits settled only after the messages, a passing proposal's own message
+could spend the proposal's own deposit and the refund would fail in the very same block (one proposal suffices) -/
+theorem gov_escrow_settle_order_matters :
+    (run { addDepositRefusesGov := true, passChecksEscrow := false, settleBeforeMsgs := false } [.deposit 1 1000, .pass 1 [.spend 1000]] init).halted = true ∧
+    (run { addDepositRefusesGov := true, passChecksEscrow := false, settleBeforeMsgs := true } [.deposit 1 1000, .pass 1 [.spend 1000]] init).halted = false := by decide
 
 -- non-vacuity: the same two histories complete under the check (the carrier proposal FAILS, nothing is written)
-example : (run ⟨true, true⟩ [.deposit 1 10000, .deposit 2 1000, .pass 1 [.spend 1000], .settle 2] init) = { bal := 0, deps := [], halted := false } := by decide
-example : (run ⟨false, true⟩ [.deposit 1 10000, .deposit 2 1000, .pass 1 [.govDeposit 2 500], .settle 2] init) = { bal := 0, deps := [], halted := false } := by decide
+example : (run { addDepositRefusesGov := true, passChecksEscrow := true } [.deposit 1 10000, .deposit 2 1000, .pass 1 [.spend 1000], .settle 2] init) = { bal := 0, deps := [], halted := false } := by decide
+example : (run { addDepositRefusesGov := false, passChecksEscrow := true } [.deposit 1 10000, .deposit 2 1000, .pass 1 [.govDeposit 2 500], .settle 2] init) = { bal := 0, deps := [], halted := false } := by decide
 -- a spend that leaves the escrow covered is committed (the account holds 300 more than the deposits)
-example : (run ⟨true, true⟩ [.deposit 1 100, .deposit 2 1000, .pass 1 [.payIn 300, .spend 200], .settle 2] init) = { bal := 100, deps := [], halted := false } := by decide
+example : (run { addDepositRefusesGov := true, passChecksEscrow := true } [.deposit 1 100, .deposit 2 1000, .pass 1 [.payIn 300, .spend 200], .settle 2] init) = { bal := 100, deps := [], halted := false } := by decide
 example : ([Op.deposit 1 5, .pass 1 [.noop, .payIn 3, .govDeposit 2 1], .settle 2] : List Op).all opSpendFree = true := by decide
 end escrow
 
